@@ -7,7 +7,7 @@ import time
 from .extract import build, ExtractError
 
 VERIF = os.path.dirname(os.path.dirname(os.path.abspath(__file__)))
-WORK = os.path.join(VERIF, 'work')
+WORK = os.environ.get('VERIF_WORK') or os.path.join(VERIF, 'work')
 
 CANARY = '''
 // vacuity canary: this obligation MUST fail (checked by the driver on every run)
